@@ -18,11 +18,13 @@ id=$(echo $ID | tr 'A-Z' 'a-z')
 WT=/tmp/vwt-$ID; H=/tmp/vh-$ID; TGT=/tmp/vtgt-$ID
 if [ ! -d $WT ]; then git -C /repo worktree add -q --detach $WT HEAD || exit 2; fi
 git -C $WT checkout -q -- . && git -C $WT clean -fdq
+git -C $WT checkout -q --detach $(git -C /repo rev-parse HEAD) || exit 2
 if [ "$PATCH" != "none" ]; then git -C $WT apply "$(realpath "$PATCH")" || { echo "patch does not apply"; exit 2; }; fi
 mkdir -p $H && rsync -a --delete --exclude target /verif/harness/ $H/
 sed -i "s#/repo/#$WT/#g" $H/vprop/Cargo.toml $H/netsim/Cargo.toml
 sed -i "s#^target-dir.*#target-dir = \"$TGT\"#" $H/.cargo/config.toml
-(cd $H && CARGO_NET_OFFLINE=true CARGO_TARGET_DIR=$TGT cargo build --offline --bin $id $(grep -q "^ext_$id = " netsim/Cargo.toml && echo "--features netsim/ext_$id") 2>&1 | tail -3) || exit 2
+rm -f $TGT/debug/$id
+(cd $H && CARGO_NET_OFFLINE=true CARGO_TARGET_DIR=$TGT cargo build --offline --bin $id $(grep -q "^ext_$id = " netsim/Cargo.toml && echo "--features netsim/ext_$id") 2>&1 | tail -3)
 [ -x $TGT/debug/$id ] || { echo "build failed"; exit 2; }
 cd /verif && $TGT/debug/$id --no-evidence "$@"
 rc=$?
